@@ -7,6 +7,8 @@ C09 — dictionary (HashMap) serialise/parse round trip.
 translated from utils.py on every run.
 -/
 import TonVerif.Proofs.Hashmap
+import TonVerif.Proofs.SrcArith2
+import TonVerif.Generated.DictKey
 
 namespace TonVerif.Properties.C09
 open TonVerif TonVerif.Model TonVerif.Model.Hashmap TonVerif.Spec.Hashmap TonVerif.Proofs.Hashmap
@@ -170,5 +172,40 @@ example : Edge.Fits exSer (.fork [] (.leaf [] true) (.leaf [] false)) 1 := by
 example : setIntKey 8 (-1) 7 ([] : Dict Nat) = none := by decide
 example : setIntKey 8 256 7 ([] : Dict Nat) = none := by simp [setIntKey, bitLength]
 example : setIntKey 8 255 7 ([] : Dict Nat) = some [(255, 7)] := by simp [setIntKey, bitLength, dictSet]
+
+/-! ## Source-regenerated key-range test (`Generated/DictKey.lean`: re-translated from boc/hashmap/hashmap.py on every run)
+
+`Generated.keyRejected key size` is the test of the `if …: raise DictError('Key sizes must be the same.')` of
+`HashMap.set_int_key` (after fix F11): `int_key < 0 or int_key.bit_length() > self.size`. -/
+section Src
+open TonVerif.Proofs.SrcArith TonVerif.Proofs.SrcArith2
+set_option linter.unusedSimpArgs false
+
+/-- for EVERY integer key and EVERY width: `set_int_key` raises exactly for the keys outside `0 ≤ k < 2^n` — the
+hypothesis of `c09_good_keys` / the complement of `c09_bad_keys`; the test is the one of the hand model. -/
+theorem c09_src_key_range (k : Int) (n : Nat) :
+    Generated.keyRejected_sideOk k n ∧
+    Generated.keyRejected k n = decide (k < 0 ∨ bitLength k.natAbs > n) ∧
+    (Generated.keyRejected k n = false ↔ 0 ≤ k ∧ k < 2 ^ n) := by
+  have hb : ∀ m : Nat, bitLength m ≤ n ↔ m < 2 ^ n := fun m => by rw [← py_bitLength_eq]; exact bitLength_le_iff m n
+  have hp : (2 : Int) ^ n = ((2 ^ n : Nat) : Int) := by simp
+  refine ⟨by simp only [Generated.keyRejected_sideOk] <;> src_prop, ?_, ?_⟩
+  · simp only [Generated.keyRejected, py_bitLength_eq] <;> src_bool
+  · simp only [Generated.keyRejected, py_bitLength_eq, decide_eq_false_iff_not, not_or, Nat.not_lt, Int.not_lt, gt_iff_lt, hb, hp]
+    omega
+
+/-- `set_int_key` of the hand model (what `c09_roundtrip`, `c09_serialize_history_free` … are proved about) accepts and
+rejects by exactly the regenerated test. -/
+theorem c09_src_model_set {V : Type} (n : Nat) (k : Int) (v : V) (d : Dict V) :
+    setIntKey n k v d = (if Generated.keyRejected k n then none else some (dictSet k.toNat v d)) := by
+  rw [(c09_src_key_range k n).2.1]
+  unfold setIntKey
+  by_cases h : k < 0 ∨ bitLength k.natAbs > n <;> simp [h]
+
+/-- the regenerated test at the boundary of an 8-bit and of a 0-bit dictionary. -/
+example : Generated.keyRejected 255 8 = false ∧ Generated.keyRejected 256 8 = true ∧ Generated.keyRejected (-1) 8 = true ∧
+    Generated.keyRejected 0 0 = false ∧ Generated.keyRejected 1 0 = true := by decide
+
+end Src
 
 end TonVerif.Properties.C09
